@@ -41,7 +41,7 @@ var argOptionNames = func() []string {
 	return n
 }()
 
-var canonOptions = []string{"removeuserinfo", "removeport", "removefragment", "repeateddecode", "defaultscheme:http", "defaultscheme:a", "sort:keys", "sort:param"}
+var canonOptions = []string{"removeuserinfo", "removeport", "removefragment", "repeateddecode", "defaultscheme:http", "defaultscheme:a", "defaultscheme:1x", "defaultscheme:a b", "defaultscheme:file", "sort:keys", "sort:param"}
 
 var profileNames = []string{"profile:WhatWg", "profile:WhatWgSortQuery", "profile:GoogleSafeBrowsing", "profile:Semantic"}
 
